@@ -358,6 +358,7 @@ func (d doubleQuotes) String() string {
 // Loosely based on Pratt parser explained in this article: https://matklad.github.io/2020/04/13/simple-but-powerful-pratt-parsing.html
 func (p *Parser) term(maxPriority Integer) (Term, error) {
 	var lhs Term
+	var lp Integer // The priority of lhs: 0 unless it is an operator term.
 	switch op, err := p.prefix(maxPriority); err {
 	case nil:
 		_, rbp := op.bindingPriorities()
@@ -367,6 +368,7 @@ func (p *Parser) term(maxPriority Integer) (Term, error) {
 			return p.term0(maxPriority)
 		}
 		lhs = op.name.Apply(t)
+		lp = op.priority
 	case errNoOp:
 		lhs, err = p.term0(maxPriority)
 		if err != nil {
@@ -377,7 +379,7 @@ func (p *Parser) term(maxPriority Integer) (Term, error) {
 	}
 
 	for {
-		op, err := p.infix(maxPriority)
+		op, err := p.infix(maxPriority, lp)
 		if err != nil {
 			break
 		}
@@ -391,6 +393,7 @@ func (p *Parser) term(maxPriority Integer) (Term, error) {
 			}
 			lhs = op.name.Apply(lhs, rhs)
 		}
+		lp = op.priority
 	}
 
 	return lhs, nil
@@ -438,22 +441,24 @@ func (p *Parser) prefix(maxPriority Integer) (operator, error) {
 	return operator{}, errNoOp
 }
 
-func (p *Parser) infix(maxPriority Integer) (operator, error) {
+// infix looks for an infix or postfix operator that can take a left operand of priority leftPriority.
+func (p *Parser) infix(maxPriority, leftPriority Integer) (operator, error) {
 	a, err := p.op(maxPriority)
 	if err != nil {
 		return operator{}, errNoOp
 	}
 
 	// The priority of the resulting term is the priority of the operator. It has to fit in the context, too.
+	// And the left operand has to fit in the operator: a = b = c is not a term, = being xfx.
 	if op := p.operators[a][operatorClassInfix]; op != (operator{}) && op.priority <= maxPriority {
 		l, _ := op.bindingPriorities()
-		if l <= maxPriority {
+		if l <= maxPriority && leftPriority <= l {
 			return op, nil
 		}
 	}
 	if op := p.operators[a][operatorClassPostfix]; op != (operator{}) && op.priority <= maxPriority {
 		l, _ := op.bindingPriorities()
-		if l <= maxPriority {
+		if l <= maxPriority && leftPriority <= l {
 			return op, nil
 		}
 	}
